@@ -241,9 +241,11 @@ def make_discretizer(cls, ds, cfg, copy=True):
     if cls == "ContinuousDiscretizer":
         return D.ContinuousDiscretizer(quantitative_features=q, min_freq=mf, copy=copy) if q else None
     if cls == "OrdinalDiscretizer":
-        return D.OrdinalDiscretizer(ordinal_features=o, min_freq=mf, values_orders=vo, copy=copy) if o else None
+        return D.OrdinalDiscretizer(ordinal_features=o, min_freq=mf, values_orders={k: v for k, v in vo.items() if k in o},
+                                    copy=copy) if o else None
     if cls == "CategoricalDiscretizer":
-        return D.CategoricalDiscretizer(qualitative_features=str_only, min_freq=mf, copy=copy) if str_only else None
+        return D.CategoricalDiscretizer(qualitative_features=str_only, min_freq=mf,
+                                        values_orders={k: v for k, v in vo.items() if k in str_only}, copy=copy) if str_only else None
     if cls == "StringDiscretizer":
         return D.StringDiscretizer(qualitative_features=c, copy=copy) if c else None
     raise ValueError(cls)
